@@ -265,6 +265,18 @@ Proof.
   rewrite E. cbn [bind]. apply fin_safe; [side|lia].
 Qed.
 
+Lemma sprintf_fail_safe s w : Inv L s -> nlen w <= L + 1 -> safe L (sprintf_fail L s w).
+Proof.
+  intros (Hb & Hl & Hz) Hw. unfold sprintf_fail. destruct HL as [HL1 HL2].
+  destruct (mcpy_safe (buf s) 0 w 0 (nlen w)) as (b1 & E & Hl1); [side|].
+  rewrite E. cbn [bind]. apply fin_safe; [side|lia].
+Qed.
+
+Lemma glibc_partial_len wide text : nlen (glibc_partial L wide text) <= L + 1.
+Proof.
+  unfold glibc_partial. cbv zeta. destruct wide; rewrite nlen_app, nlen_take; change (nlen [0]) with 1; lia.
+Qed.
+
 Lemma replace_impl_safe s pos1 count1 arr pos2 count2 :
   Inv L s -> pos1 < M64 -> count1 < M64 -> pos2 < M64 -> count2 < M64 ->
   pos2 + count2 <= nlen arr ->
